@@ -39,6 +39,7 @@ def natBE (n len : Nat) : ByteArray := Id.run do
 
 /-- bytes `[off, off+len)` of `b`, zero padded on the right -/
 def extractPad (b : ByteArray) (off len : Nat) : ByteArray :=
+  if off ≥ b.size then zeros len else
   let part := b.extract off (off + len)
   if part.size == len then part else part ++ zeros (len - part.size)
 
